@@ -161,20 +161,29 @@ fn exec_bopen(b: &BOpen) -> String { exec_bopen_on(b, None) }
 
 /// `pre`: the builder is made by `from_target` on a Vec that already holds that many octets
 fn exec_bopen_on(b: &BOpen, pre: Option<usize>) -> String {
-    let mut ob = match pre {
-        None => OpenBuilder::new_vec(),
-        Some(n) => match OpenBuilder::from_target(vec![0xaau8; n]) { Ok(x) => x, Err(_) => return "err".into() },
+    let mk = || -> Option<OpenBuilder<Vec<u8>>> {
+        let mut ob = match pre {
+            None => OpenBuilder::new_vec(),
+            Some(n) => match OpenBuilder::from_target(vec![0xaau8; n]) { Ok(x) => x, Err(_) => return None },
+        };
+        ob.set_asn(inetnum::asn::Asn::from_u32(b.asn));
+        ob.set_holdtime(b.ht);
+        ob.set_bgp_id(b.id);
+        if let Some(a) = b.four { ob.four_octet_capable(inetnum::asn::Asn::from_u32(a)); }
+        for (a, s) in &b.mp { ob.add_mp(AfiSafiType::from((*a, *s))); }
+        for c in &b.caps { ob.add_capability(Capability::new(c.clone())); }
+        for (a, s, d) in &b.ap {
+            ob.add_addpath(AfiSafiType::from((*a, *s)), AddpathDirection::try_from(*d).unwrap());
+        }
+        Some(ob)
     };
-    ob.set_asn(inetnum::asn::Asn::from_u32(b.asn));
-    ob.set_holdtime(b.ht);
-    ob.set_bgp_id(b.id);
-    if let Some(a) = b.four { ob.four_octet_capable(inetnum::asn::Asn::from_u32(a)); }
-    for (a, s) in &b.mp { ob.add_mp(AfiSafiType::from((*a, *s))); }
-    for c in &b.caps { ob.add_capability(Capability::new(c.clone())); }
-    for (a, s, d) in &b.ap {
-        ob.add_addpath(AfiSafiType::from((*a, *s)), AddpathDirection::try_from(*d).unwrap());
-    }
-    format!("ok {}", hex(&ob.finish()))
+    let Some(ob) = mk() else { return "err".into() };
+    let bytes = ob.finish();
+    // (tie coverage) OpenBuilder::into_message is finish() wrapped into an OpenMessage: the same octets
+    let Some(ob2) = mk() else { return "err".into() };
+    let msg = ob2.into_message();
+    if msg.as_ref() != &bytes[..] { return format!("into_message {} differs from finish {}", hex(msg.as_ref()), hex(&bytes)); }
+    format!("ok {}", hex(&bytes))
 }
 
 fn hexarg(s: &str) -> Option<Vec<u8>> {
